@@ -116,7 +116,8 @@ def maxBit : Program → Nat
 
 structure Kernel where
   name : List Nat          -- qualified name, as byte codes (kept out of `String` for the kernel)
-  nargs : Nat
+  nargs : Nat              -- real parameters followed by one pseudo-argument per module-level mutable object used
+  nreal : Nat              -- number of real parameters (`nreal ≤ nargs`)
   bits : Nat               -- number of aliasing configuration bits
   allowed : List Nat       -- parameters the function may write by design (private helpers only; `[]` if public)
   isPublic : Bool
@@ -128,7 +129,8 @@ structure Kernel where
 /-- the decidable check behind `K_no_arg_write`: over all `2^bits` configurations the written arguments
 stay inside `allowed` -/
 def Kernel.check (k : Kernel) : Bool :=
-  decide (maxBit k.ir ≤ k.bits) && (!k.isPublic || k.allowed.isEmpty) &&
+  decide (maxBit k.ir ≤ k.bits) &&
+  ((!k.isPublic || k.allowed.isEmpty) && k.allowed.all (fun j => decide (j < k.nreal))) &&
   (List.range (2 ^ k.bits)).all (fun c =>
     (writtenArgs k.nargs k.ir c).all (fun j => k.allowed.contains j) &&
     k.rets.all (fun r => (returnAliases k.nargs k.ir c r.1).all (fun j => r.2.contains j)))
